@@ -1418,3 +1418,66 @@ def arr_reshape3(I, recv, args, kwargs):
         return SArr((r2, c2), lambda i, j: a.fn(_zdiv(simp(to_z3(i) * to_z3(c2) + to_z3(j)), c), _zmod(simp(to_z3(i) * to_z3(c2) + to_z3(j)), c)),
                     a.dtype, "ndarray")
     return _old_reshape3(I, recv, args, kwargs)
+
+
+# ----------------------------------------------------------------------------- C06 additions: recorded column aggregates
+
+def _record_agg(I, name, a, kwargs):
+    """an external aggregate of a numeric array: uninterpreted result, recorded in the ghost trace with the array it is given"""
+    from .libmodels import Event
+    USED.add(f"{name}: uninterpreted aggregate, recorded with its argument")
+    axis = kwargs.get("axis")
+    if a.ndim == 2 and (axis == 0 or name.endswith("_weighted_percentile")):
+        f = I.ctx.fresh_fun(name.split(".")[-1] + "_col", z3.IntSort(), z3.RealSort())
+        out = SArr((a.shape[1],), lambda j: f(to_z3(j)), "real", "ndarray")
+    elif a.ndim == 1 and axis in (None, 0):
+        out = I.ctx.fresh_real(name.split(".")[-1])
+    else:
+        raise Undecided(f"{name} with axis={axis} on a {a.ndim}-d array")
+    I.ctx.trace.append(Event(None, "agg:" + name.split(".")[-1], [a], dict(kwargs), out, getattr(I.ctx, "loop_k", None)))
+    return out
+
+
+_prev_np_average = np_average
+
+
+@lib("numpy.average")
+def np_average2(I, args, kwargs):
+    if _members(I, args[0]) is not None:
+        return _prev_np_average(I, args, kwargs)
+    a = to_arr(I, args[0])
+    kw = dict(kwargs)
+    if len(args) > 1:
+        kw["axis"] = args[1]
+    return _record_agg(I, "numpy.average", a, kw)
+
+
+@lib("sklearn.utils.stats._weighted_percentile")
+def sk_weighted_percentile(I, args, kwargs):
+    a = to_arr(I, args[0])
+    kw = dict(kwargs)
+    if len(args) > 1:
+        kw["sample_weight"] = args[1]
+    return _record_agg(I, "sklearn._weighted_percentile", a, kw)
+
+
+@lib("scipy.stats.gmean")
+def sp_gmean(I, args, kwargs):
+    return _record_agg(I, "scipy.gmean", to_arr(I, args[0]), dict(kwargs))
+
+
+def _sqrt_fun(ctx):
+    memo = ctx.__dict__.setdefault("sqrt_fun", None)
+    if memo is None:
+        ctx.sqrt_fun = z3.Function("sqrt", z3.RealSort(), z3.RealSort())
+    return ctx.sqrt_fun
+
+
+@lib("numpy.sqrt")
+def np_sqrt(I, args, kwargs):
+    USED.add("np.sqrt: uninterpreted real function")
+    f = _sqrt_fun(I.ctx)
+    v = args[0]
+    if isinstance(v, SArr):
+        return ops.map_arr(v, lambda x: f(ops.as_real(x)), dtype="real")
+    return f(ops.as_real(v))
